@@ -689,6 +689,12 @@ def run(ctx):
                 judge_mix(ctx, v, r, s)
             ctx.traces += len(vecs) + len(mixvecs)
         ctx.note('%d composite configurations with 1..3 mixins (plugin mixins registered through ClassFactory.load_plugin) x %d hash seeds' % (len(mixvecs), len(seeds)))
+        subres = [(v, r) for v, r in zip(mixvecs, out[seeds[0]]['mixresults']) if v['subs'] and v['variant'] == 'plain']
+        ninit = sum(1 for v, r in subres if 'init_err' in (r.get('graph') or {}))
+        ctx.note('%d configurations with 1..2 sub-sections under plain / composite / custom selectors of [Chemistry] and [Model] compared as object graphs with '
+                 'the library-built component (%d of them: the chemistry refuses to initialise on both sides alike)' % (len(subres), ninit))
+        if subres and ninit * 2 > len(subres):
+            raise Machinery('sub-section graphs: most chemistries do not initialise (%d of %d): the comparison is vacuous' % (ninit, len(subres)))
         ctx.note('%d configurations x %d hash seeds; %d distinct class-set iteration orders observed' % (nplain, len(seeds), len(orders)))
         ctx.note('%d value-grammar configurations (one key x one raw value: list lengths 0..3 x numbers / strings / mixed, scalar spellings) x %d hash seeds' % (
             len(valvecs), len(seeds)))
